@@ -82,8 +82,20 @@ for fn in sorted(lines):
     for st in sorted(by_line):
         if by_line[st][0] == 0:
             out.append("  function never executed (line %d): %s" % (st, by_line[st][1][:140]))
-    # lines that look like function definitions but were never even instantiated
-    inst = set(by_line)
+    # code that was never even instantiated (templates / inline members no check touches): statement-looking lines that gcov never
+    # saw in any job, reported as ranges with the nearest preceding function-looking line
+    import re
+    stmt = re.compile(r"(;\s*(//.*)?$)|(^\s*(if|for|while|return|else)\b)")
+    never = [k for k in range(1, len(src) + 1) if k not in L and stmt.search(src[k - 1]) and not re.match(r"^\s*(//|\*|/\*|#|using |typedef |static constexpr|friend |template|public:|private:|protected:)", src[k - 1])]
+    rng = []
+    for k in never:
+        if rng and k <= rng[-1][1] + 3: rng[-1][1] = k
+        else: rng.append([k, k])
+    for a, b in rng:
+        if b - a < 1: continue
+        head = a
+        while head > 1 and not re.search(r"\)\s*(const)?\s*(noexcept)?\s*$|\)\s*(const)?\s*\{", src[head - 1]): head -= 1
+        out.append("  never instantiated %d-%d (after line %d: %s)" % (a, b, head, src[head - 1].strip()[:100]))
 open(os.path.join(VERIF, "coverage_report.txt"), "w").write("\n".join(out) + "\n")
 print("\n".join(out[:400]))
 shutil.rmtree(SCR, ignore_errors=True)
